@@ -63,14 +63,14 @@ def histories(rep, hist, cfgs):
                       "s": cfg["subjects"][si], "names": names, "ops": list(ops), "vals": hist["assign"][si], "intrep": intrep})
 
     for cfg in cfgs.values():
-        for si in range(len(cfg["subjects"])):
+        for si in sorted(k - 1 for k in hist["subjects"]):
             for ops in itertools.product(range(nops), repeat=L):          # every history of length L (prefixes are judged step by step)
                 add(cfg, si, ops, True)
             for ops in itertools.product(range(nops), repeat=2):          # integer-valued lastIndex held as a Python float
                 add(cfg, si, ops, False)
     nexh = len(cases)
     rep.spaces.append({"space": "all histories of length %d over %d operations x %d (pattern, flags) x %d subjects (+ length 2 with float representation)"
-                       % (L, nops, len(cfgs), len(next(iter(cfgs.values()))["subjects"])), "histories": nexh, "complete": True})
+                       % (L, nops, len(cfgs), len(hist["subjects"])), "histories": nexh, "complete": True})
     if rep.tier == "thorough":
         rnd = random.Random(rep.seed)
         cl = list(cfgs.values())
